@@ -377,6 +377,10 @@ type Connection struct {
 	reconnectErrPtr   *error             // Filled in with fatal reconnect err (if any) before reconnectChan is closed
 	cancelFunc        context.CancelFunc // used to cancel the reconnect loop
 	reconnectedBefore bool
+	// set by a fire-now command that has to wait for the reconnect
+	// sequence, so that a connect delay the sequence starts later is
+	// skipped too; cleared when the sequence ends
+	fireNowRequested bool
 
 	firstConnectDelayDuration     time.Duration
 	initialReconnectBackoffWindow func() time.Duration
@@ -656,14 +660,15 @@ func (c *Connection) DoCommand(ctx context.Context, name string, timeout time.Du
 		defer timeoutCancel()
 	}
 	for {
-		if (c.firstConnectDelayDuration != 0 ||
-			c.initialReconnectBackoffWindow != nil) && isWithFireNow(ctx) {
+		fireNow := (c.firstConnectDelayDuration != 0 ||
+			c.initialReconnectBackoffWindow != nil) && isWithFireNow(ctx)
+		if fireNow {
 			c.connectDelayTimer.FireNow()
 		}
 
 		// we may or may not be in the process of reconnecting.
 		// if so we'll block here unless canceled by the caller.
-		connErr := c.waitForConnection(ctx, false)
+		connErr := c.waitForConnection(ctx, false, fireNow)
 		if connErr != nil {
 			return connErr
 		}
@@ -702,7 +707,7 @@ func (c *Connection) DoCommand(ctx context.Context, name string, timeout time.Du
 
 // Blocks until a connnection is ready for use or the context is canceled.
 func (c *Connection) waitForConnection(
-	ctx context.Context, forceReconnect bool) error {
+	ctx context.Context, forceReconnect bool, fireNow bool) error {
 	reconnectChan, disconnectStatus, reconnectErrPtr, wait :=
 		func() (chan struct{}, DisconnectStatus, *error, bool) {
 			c.mutex.Lock()
@@ -715,10 +720,18 @@ func (c *Connection) waitForConnection(
 			// or for the caller to cancel.
 			reconnectChan, disconnectStatus, reconnectErrPtr :=
 				c.getReconnectChanLocked()
+			if fireNow {
+				c.fireNowRequested = true
+			}
 			return reconnectChan, disconnectStatus, reconnectErrPtr, true
 		}()
 	if !wait {
 		return nil
+	}
+	if fireNow {
+		// the sequence may have started its connect delay timer
+		// after DoCommand's FireNow
+		c.connectDelayTimer.FireNow()
 	}
 	c.log.Debug("Connection: %s; status: %d",
 		LogField{Key: ConnectionLogMsgKey, Value: "waitForConnection"},
@@ -735,7 +748,7 @@ func (c *Connection) waitForConnection(
 }
 
 func (c *Connection) ForceReconnect(ctx context.Context) error {
-	return c.waitForConnection(ctx, true)
+	return c.waitForConnection(ctx, true, false)
 }
 
 // Returns true if the error indicates we should retry the command.
@@ -792,6 +805,18 @@ func (c *Connection) getReconnectChan() (
 	return c.getReconnectChanLocked()
 }
 
+// fireConnectDelayTimerIfRequested fast-forwards the connect delay
+// timer that was just started if a fire-now command is already
+// waiting for this reconnect sequence.
+func (c *Connection) fireConnectDelayTimerIfRequested() {
+	c.mutex.Lock()
+	requested := c.fireNowRequested
+	c.mutex.Unlock()
+	if requested {
+		c.connectDelayTimer.FireNow()
+	}
+}
+
 // doReconnect attempts a reconnection.  It assumes that reconnectChan
 // and reconnectErrPtr are the same ones in c, but are passed in to
 // avoid having to take the mutex at the beginning of the method.
@@ -806,6 +831,7 @@ func (c *Connection) doReconnect(ctx context.Context, disconnectStatus Disconnec
 			LogField{
 				Key: ConnectionLogMsgKey, Value: "initial connect backoff"},
 			LogField{Key: "duration", Value: c.firstConnectDelayDuration})
+		c.fireConnectDelayTimerIfRequested()
 		c.connectDelayTimer.Wait()
 		c.log.Debug("%s!", LogField{
 			Key: ConnectionLogMsgKey, Value: "initial connect backoff done"})
@@ -816,6 +842,7 @@ func (c *Connection) doReconnect(ctx context.Context, disconnectStatus Disconnec
 			LogField{
 				Key: ConnectionLogMsgKey, Value: "initial reconnect backoff"},
 			LogField{Key: "duration", Value: waitDur})
+		c.fireConnectDelayTimerIfRequested()
 		c.connectDelayTimer.Wait()
 		c.log.Debug("%s!", LogField{
 			Key: ConnectionLogMsgKey, Value: "initial reconnect backoff done"})
@@ -862,6 +889,7 @@ func (c *Connection) doReconnect(ctx context.Context, disconnectStatus Disconnec
 	c.reconnectChan = nil
 	c.cancelFunc = nil
 	c.reconnectErrPtr = nil
+	c.fireNowRequested = false
 	if c.reconnectCompleteForTest != nil {
 		close(c.reconnectCompleteForTest)
 		c.reconnectCompleteForTest = nil
